@@ -314,6 +314,9 @@ func (r *report) finish() int {
 		for _, e := range sortedKeys(externs) {
 			tb = append(tb, "extern contract "+e)
 		}
+		if samples == nil {
+			samples = []any{}
+		}
 		cov := map[string]any{
 			"obligations":              nClaimed,
 			"discharged":               nDischarged,
@@ -347,7 +350,9 @@ func (r *report) finish() int {
 			// nothing proved: make that explicit instead of a vacuous proof claim
 			ev["level"] = "other"
 		}
-		if !r.noEvidence {
+		// a property without a single claimed obligation or bounded run (not applicable: its contracts only carry a
+		// known finding or serve other properties) gets no evidence file
+		if !r.noEvidence && (nClaimed > 0 || len(boundedEv) > 0) && !notApplicable(eng.verif, p) {
 			os.MkdirAll(filepath.Join(eng.verif, "evidence"), 0o755)
 			data, _ := json.MarshalIndent(ev, "", " ")
 			os.WriteFile(filepath.Join(eng.verif, "evidence", p+".json"), data, 0o644)
@@ -503,6 +508,30 @@ func lockAnchored(name string) bool {
 		return true
 	case strings.HasPrefix(k, "loop") && (strings.Contains(k, "-step") || strings.Contains(k, "-exit")):
 		return true
+	}
+	return false
+}
+
+// notApplicable reports whether MANIFEST.json lists the property under not_applicable: the contracts that mention
+// such a property (a known finding, clauses shared with other properties) are still checked, but no evidence file
+// claims anything for it.
+func notApplicable(verif, prop string) bool {
+	data, err := os.ReadFile(filepath.Join(verif, "MANIFEST.json"))
+	if err != nil {
+		return false
+	}
+	var m struct {
+		NA []struct {
+			ID string `json:"property_id"`
+		} `json:"not_applicable"`
+	}
+	if json.Unmarshal(data, &m) != nil {
+		return false
+	}
+	for _, e := range m.NA {
+		if e.ID == prop {
+			return true
+		}
 	}
 	return false
 }
